@@ -209,8 +209,8 @@ def gen_case(ctx: Ctx, rng):
         return None
     nph = max(0, min(rng.choice([1, 1, 2, 2, 3]), 4 - hp))
     im = c.input_modes
-    det = {"eta": rng.choice([1, 1, 0.9, 0.5, 0.75]), "pdark": rng.choice([0, 0, 0, 0.05, 0.25]),
-           "pnr": rng.random() < 0.6}
+    det = {"eta": rng.choice([1, 1, 0.9, 0.5, 0.75, 0]), "pdark": rng.choice([0, 0, 0, 0.05, 0.25, 1]),
+           "pnr": rng.random() < 0.6}  # incl. the extremes: no photon ever detected / a dark count in every mode
     return {"prog": prog, "input": fg.rand_state(rng, im, nph), "det": det, "rules": gen_rules(rng, im, nph),
             "min": rng.choice([0, 0, 1, nph]), "seed": gen_seed(rng), "N": rng.choice([50, 200, 400]),
             "psform": rng.choice(["object", "object", "function"])}
@@ -1271,7 +1271,8 @@ def mutate_heralds(rng, n: int, hs: list) -> list:
 
 DETS = [{"eta": 1, "pdark": 0, "pnr": True}, {"eta": 1, "pdark": 0, "pnr": True}, {"eta": 1, "pdark": 0, "pnr": False},
         {"eta": 0.5, "pdark": 0, "pnr": True}, {"eta": 0.9, "pdark": 0, "pnr": True}, {"eta": 0.75, "pdark": 0, "pnr": False},
-        {"eta": 1, "pdark": 0.25, "pnr": True}, {"eta": 0.9, "pdark": 0.05, "pnr": False}]
+        {"eta": 1, "pdark": 0.25, "pnr": True}, {"eta": 0.9, "pdark": 0.05, "pnr": False},
+        {"eta": 0, "pdark": 0.25, "pnr": True}, {"eta": 0, "pdark": 0.5, "pnr": False}, {"eta": 0.5, "pdark": 1, "pnr": True}]
 PARAMS = [0.25, 0.5, 0.75, 1.0, 0.0]
 
 
